@@ -166,6 +166,14 @@ def fam_timing(seed, n_random, big):
                 sc["ops"] += [["kill"], ["wait"]]
             i += 1
             out.append(sc)
+    # the handle holds the child's stdout pipe and the child has closed its end of it (but lives on): the wait still sleeps
+    for d, e in ((300 * MS, None), (2 * S, 700 * MS), (5 * S, None)):
+        sc = {"id": "t%d" % i, "exit": {"k": "exited", "v": 8, "at": e}, "pipe_stdout": True,
+              "ops": [["wait_timeout", d], ["poll"], ["wait_timeout", d]], "drop": True, "overshoot": 0}
+        if e is None:
+            sc["ops"] += [["kill"], ["wait"]]
+        i += 1
+        out.append(sc)
     # the wall clock is stepped (NTP, `date -s`, a resumed VM) while the call waits: durations are not calendar time
     for by in (3600 * S, -3600 * S, 2 * S, -S):
         for d, e in ((2 * S, None), (2 * S, 1500 * MS), (300 * MS, None), (10 * S, 9 * S)):
